@@ -491,8 +491,8 @@ def localized (b : BSpec K) (location : Loc) (rh : Option Bool) : Localized K :=
       let en := if right then min loc.stop (nl.stop + window) else nl.stop
       .new (hairpins stem window ⟨st, en, nl.strand⟩)
 
-/-- `l.indices[:m]` for a possibly negative `m` -/
-def indicesUpTo (l : Loc) (m : Int) : List Int := pySliceTo l.indices m
+/-- `sorted(l.indices)[:m]` for a possibly negative `m` -/
+def indicesUpTo (l : Loc) (m : Int) : List Int := pySliceTo (l.indices.mergeSort (· ≤ ·)) m
 
 /-- `UniquifyAllKmers.localized(location, problem, with_righthand)` (uses the problem's sequence);
     `none` = KeyError -/
